@@ -78,7 +78,7 @@ def ckOp (buffered : Bool) (op : String) (res : String) (ds dd : Nat) (dgs : Lis
   if res == "panic" then some ⟨"C20", "a socket sink call panicked"⟩ else
   if res == "blocked" then some ⟨"C13", "a socket sink call did not return (blocked for 3 s on a socket whose peer keeps reading)"⟩ else
   if buffered && res.startsWith "ok" && dd > 0 then
-    some ⟨"C06+C07", "the call returned Ok although a send attempted during it was refused by the socket"⟩ else
+    some ⟨"C06+C07+C12", "the call returned Ok although a send attempted during it was refused by the socket"⟩ else
   if !buffered && (op.startsWith "e" || op.startsWith "g") then
     let m := if op.startsWith "e" then unhex (op.drop 1).toString else genMetric ((op.drop 1).toString.toNat?.getD 0)
     if ds + dd ≠ 1 then some ⟨"C13", "an unbuffered emit did not make exactly one send attempt"⟩
